@@ -405,12 +405,23 @@ PROPS["C12"] = dict(mc=_tfm_mc(), record=True, trace="Trace_Tfm", shards=12,
                "non-grid matrices are not decided. Trusted: TLC, Json module.",
     rule="impl->spec: one event per (matrix, background, score) with all iterations; distinct_nontrivial = distinct queries.",
     assumptions=["at most 6 refinement steps are recorded per query (granularity down to 1e-6)"])
-PROPS["C13"] = dict(mc=_dist_mc(), record=True, trace="Trace_Tfm", shards=12,
+def _tfmscore_mc():
+    return _dist_mc() + [
+        dict(name="MC_TfmScore", module="MC_TfmScore", invariants=["Refines"], coverage=False, workers=6,
+             constants=dict(NarrowMargin=False), quick=dict(MaxM=2, CellVals="{0, 1, 3, 6}"), thorough=dict(MaxM=3, CellVals="{0, 1, 6}")),
+    ]
+PROPS["C13"] = dict(mc=_tfmscore_mc(), record=True, trace="Trace_Tfm", shards=14,
     level_text="Every refinement step of TfmPvalue::approximate_score on real grid matrices (M = 2..6, three background "
                "families, p over small fractions incl. 1/bd^M) is validated by TLC against the exact tail: with d = (M+2)g, "
                "P(S >= t+d) <= p, and P(S >= u-d) >= p for the largest attainable u below t-d; thresholds are multiples of "
                "the reported granularity.",
-    level_note="Same limits as C12. Trusted: TLC, Json module.",
+    level_note="I-layer: lookup_score and the first two steps of the refinement iterator (window margins ceil(error_max + 0.5)) "
+               "are transcribed in Tfm.tla and model-checked (MC_TfmScore) to satisfy both clauses for every small matrix, "
+               "background, row permutation and p = k / (2 bd^M). Fidelity was compared on recorded queries: identical "
+               "thresholds for dyadic backgrounds; for decimal backgrounds the f64 sums decide exact ties (sum == p) "
+               "differently from exact arithmetic - both outcomes satisfy the property - so the comparison is not part of the "
+               "check. Recorded queries come from fresh and from reused TfmPvalue objects, grids 1/4 and 1/16, constant rows, "
+               "attainable tails and midpoints. Same limits as C12. Trusted: TLC, Json module.",
     rule="impl->spec: one event per (matrix, background, p) with all iterations; distinct_nontrivial = distinct queries.",
     assumptions=["at most 6 refinement steps are recorded per query"])
 
